@@ -43,27 +43,27 @@ Proof. exact config_equal_never_stale. Qed.
 (* A Reload whose callback returns a configuration Equal to the active one: from the callback's return
    until that Reload gives up the mutex no server is created, shut down or unbound, the server pointer,
    the once and the configuration are untouched, and the Reload ends with the state Running. *)
-Theorem C13_unchanged_enters : forall validated mux_ok s i c s',
+Theorem C13_unchanged_enters : forall sl validated mux_ok s i c s',
   kpc s = KFetch -> holder s = Some (ByReload i) ->
   go_config_equal c (cur s) = true ->
-  step validated mux_ok s (LFetch (CbCfg c)) = Some s' ->
+  step sl validated mux_ok s (LFetch (CbCfg c)) = Some s' ->
   kpc s' = KUnchanged /\ servers_untouched s s'.
 Proof. exact unchanged_enters. Qed.
 
-Theorem C13_unchanged : forall validated mux_ok c0 ls s l s',
+Theorem C13_unchanged : forall sl validated mux_ok c0 ls s l s',
   no_foreign ls ->
-  run (step validated mux_ok) (init c0) ls = Some s ->
+  run (step sl validated mux_ok) (init c0) ls = Some s ->
   kpc s = KUnchanged ->
-  step validated mux_ok s l = Some s' ->
+  step sl validated mux_ok s l = Some s' ->
   servers_untouched s s' /\
   (kpc s' = KUnchanged \/ (holder s' = None /\ fsm_st s' = FRunning)).
 Proof. exact unchanged_step. Qed.
 
 (* A changed configuration replaces r.config before anything else happens ... *)
-Theorem C13_changed_takes_new : forall validated mux_ok s i c s',
+Theorem C13_changed_takes_new : forall sl validated mux_ok s i c s',
   kpc s = KFetch -> holder s = Some (ByReload i) ->
   go_config_equal c (cur s) = false ->
-  step validated mux_ok s (LFetch (CbCfg c)) = Some s' ->
+  step sl validated mux_ok s (LFetch (CbCfg c)) = Some s' ->
   cur s' = c /\ kpc s' = KStopPending.
 Proof. exact changed_takes_new. Qed.
 
@@ -72,9 +72,9 @@ Proof. exact changed_takes_new. Qed.
    the runner now holds, through a mux that accepted its patterns; it is listening on that address; and it
    is the ONLY server of this runner bound anywhere - so the old server was shut down and, if the address
    changed, the old address is released. *)
-Theorem C13_changed : forall validated mux_ok c0 ls s,
+Theorem C13_changed : forall sl validated mux_ok c0 ls s,
   no_foreign ls ->
-  run (step validated mux_ok) (init c0) ls = Some s ->
+  run (step sl validated mux_ok) (init c0) ls = Some s ->
   fsm_st s = FRunning -> rpc s <> RInStop ->
   exists sid sv, server s = Some sid /\ nth_error (servers s) sid = Some sv /\
                  s_cfg sv = cur s /\ s_shut sv = false /\ s_pc sv = SvListening /\
@@ -88,9 +88,9 @@ Proof. exact running_serves. Qed.
    (unbindable address, cancelled context), a configuration NewConfig rejects - and then the state is
    Error at that very step, or the final Transition(Running).  No hypothesis on the state: this holds
    with foreign binders too. *)
-Theorem C13_visible : forall validated mux_ok s l s' i,
+Theorem C13_visible : forall sl validated mux_ok s l s' i,
   holder s = Some (ByReload i) -> holder s' = None ->
-  step validated mux_ok s l = Some s' ->
+  step sl validated mux_ok s l = Some s' ->
   (reload_failing s l = true /\ fsm_st s' = FError) \/
   ((l = LUnchanged \/ l = LFinish) /\ (fsm_st s' = FRunning \/ fsm_st s' = FError)).
 Proof. exact visible_step. Qed.
@@ -100,11 +100,11 @@ Proof. exact visible_step. Qed.
    Stop or cancel has been requested, either Run has returned or some step other than a new call or an
    observation is enabled: an internal step, or the return of the callback / of the http.Server.Shutdown in
    flight.  (No stuck state; liveness under fairness is not expressed.) *)
-Theorem C13_terminates : forall validated mux_ok c0 ls s,
-  run (step validated mux_ok) (init c0) ls = Some s ->
+Theorem C13_terminates : forall sl validated mux_ok c0 ls s,
+  run (step sl validated mux_ok) (init c0) ls = Some s ->
   crashed s = false -> rpc s <> RNew ->
   (cancelled s || stop_req s = true) ->
-  run_returned s = true \/ exists l, progress_label l = true /\ step validated mux_ok s l <> None.
+  run_returned s = true \/ exists l, progress_label l = true /\ step sl validated mux_ok s l <> None.
 Proof. exact no_stuck0. Qed.
 
 Print Assumptions C13_equal_iff.
@@ -143,9 +143,26 @@ Definition ex_sched : list label :=
    LReloadCall 0; LReloadBegin 0; LFetch (CbCfg ex_b); LStopCallS 0; LShutdownRet 0 SOk;
    LBootCreate 1 ex_b; LBindOk 1; LProbeOk; LFinish; LReloadRet 0].
 Example C13_ex_reload_changed :
-  exists s, run (step false (fun _ => true)) (init ex_a) ex_sched = Some s /\
+  exists s, run (step true false (fun _ => true)) (init ex_a) ex_sched = Some s /\
             fsm_st s = FRunning /\ rpc s = RSelect /\ server s = Some 1 /\
             net_get (net s) (addr ex_b) = Some (Own 1) /\ net_get (net s) (addr ex_a) = None.
 Proof. eexists. split; [vm_compute; reflexivity|]. repeat split. Qed.
 Example C13_ex_no_foreign : no_foreign ex_sched.
 Proof. repeat constructor. Qed.
+
+(* a reload that switches every server timeout off (0) and re-pairs names and paths: the server then running was
+   created from exactly that configuration, zeros and pairing included *)
+Definition ex_zero : config :=
+  {| addr := [65%N]; drain := 5%Z; read_to := 0%Z; write_to := 0%Z; idle_to := 0%Z;
+     routes := [{| rname := rname ex_r1; rpath := rpath ex_r2 |}; {| rname := rname ex_r2; rpath := rpath ex_r1 |}] |}.
+Definition ex_two : config := ex_cfg [ex_r1; ex_r2].
+Example C13_ex_zero_and_swap_is_a_change : go_config_equal ex_zero ex_two = false /\
+  go_config_equal (ex_cfg (routes ex_zero)) ex_two = false.
+Proof. split; vm_compute; reflexivity. Qed.
+Example C13_ex_reload_to_zero :
+  exists s sv, run (step true true (fun _ => true)) (init ex_two)
+                 [LRunCall; LRunStart; LRunLock; LBootCreate 0 ex_two; LBindOk 0; LProbeOk; LRunFinishBoot;
+                  LReloadCall 0; LReloadBegin 0; LFetch (CbCfg ex_zero); LStopCallS 0; LShutdownRet 0 SOk;
+                  LBootCreate 1 ex_zero; LBindOk 1; LProbeOk; LFinish] = Some s /\
+               fsm_st s = FRunning /\ nth_error (servers s) 1 = Some sv /\ s_cfg sv = ex_zero.
+Proof. eexists. eexists. split; [vm_compute; reflexivity|]. repeat split. Qed.
